@@ -184,6 +184,48 @@ func checkC04(c *Case, st *Stats) string {
 		return fmt.Sprintf("the source document was modified by the second retrieval (accessor mode %v): %s", !c.Accessor, d)
 	}
 	_ = lib2
+	// a caller may hand a result it was given to the library as the next document: that slice is
+	// a source document like any other
+	for _, r := range []retrieveResult{lib, lib2} {
+		if r.err != nil || len(r.got) == 0 {
+			continue
+		}
+		rs := takeSnapshot(r.got)
+		for _, q := range []string{"$[-1]", "$[*]", "$[?(@)]", "$..*"} {
+			_, _ = jsonpath.Retrieve(q, r.got)
+			st.Eval(1)
+			if d := rs.diff(r.got); d != "" {
+				return fmt.Sprintf("a result slice (%d values) used as the source document of %s was modified by that retrieval: %s", len(r.got), q, d)
+			}
+		}
+		if len(r.got) >= 64 {
+			st.Class("result-as-source:>=64 values")
+		}
+		st.Class("result-as-source")
+		if d := snap.diff(doc); d != "" {
+			return fmt.Sprintf("the source document was modified when a result of it was used as a source document: %s", d)
+		}
+	}
+	// a function name no Config registers: whatever the library makes of it, the document stays as it is
+	if len(c.Path)%3 == 1 && !c.Accessor {
+		// half of the time one of the aggregates other JSONPath dialects build in (the first six names)
+		name := gen.BuiltinLookingNames[len(docText)%len(gen.BuiltinLookingNames)]
+		if len(docText)%2 == 0 {
+			name = gen.BuiltinLookingNames[(len(docText)/2)%6]
+		}
+		cc := *c
+		cc.Path, cc.Twin = c.Path+"."+name+"()", ""
+		lib3 := evalLibrary(&cc, doc, false)
+		if lib3.parseErr != nil {
+			st.Class("unregistered-function-name:rejected")
+		} else {
+			st.Class("unregistered-function-name:accepted")
+			st.Eval(1)
+		}
+		if d := snap.diff(doc); d != "" {
+			return fmt.Sprintf("the source document was modified by %s: %s\n   before %s\n   after  %s", cc.Path, d, docText, JSONString(doc))
+		}
+	}
 	if lib.err == nil {
 		st.Class("outcome:values")
 	} else {
